@@ -360,7 +360,8 @@ fn sink(e: compio_driver::verif::Event) {
                 Event::Submit { id, path: SubmitPath::Blocking } => {
                     o.pool.insert(id);
                 }
-                Event::PoolDone { id } => {
+                // done = the completion entry was handed back to the driver (or found it gone)
+                Event::PoolSent { id, .. } => {
                     o.pool_done.insert(id);
                 }
                 _ => {}
